@@ -46,12 +46,12 @@ PROPS = {
                 "containing a closing brace or a rule header). Second stream: bare when clauses (depth to 6, metacharacter strings in half of them, arbitrary blanks and redundant parentheses) through the hook "
                 "verif_parse_when_clause, compared with the Coq model of the condition-tree parser AND with the written tree. Observed per rule: name, salience, flags, groups, dates, condition tree, action list. "
                 "non-trivial = at least one rule",
-        "level_text": "Theorems (Coq, every text): string literals are opaque to the condition splitter (whatever stands between two equal quote characters never separates conditions, at any depth, for any continuation); "
+        "level_text": "Theorems (Coq): the condition-tree parser recovers the written tree - for EVERY tree of comparisons joined by &&, || and !( ), any depth, any number of redundant parenthesis pairs, leaves being neutral texts "
+                "(proved for ordinary text optionally followed by a string literal with arbitrary content), parse_when (print tree) = tree: && binds tighter than ||, parentheses and ! respected. Lemmas for every text: string literals are opaque to the condition splitter (whatever stands between two equal quote characters never separates conditions, at any depth, for any continuation); "
                 "parentheses protect (a text that may split at its own top level does not split once parenthesised); a top-level && / || between two non-splitting texts separates exactly there into exactly the two trimmed "
                 "texts; such texts compose. The model of parse_when_clause / split_logical_operator / the single-comparison pattern is compared with the code on every generated clause; the Coq-defined expectation exp_rule "
                 "(what was written, independent of layout by construction) is compared with the parser's output on every generated file.",
-        "level_note": "Partial: the regular expressions (rexile) that carve a file into rules and a rule into header / when / then are not modelled - their result is observed and compared with exp_rule; the tree-level "
-                "theorem parse_when (print t) = t for every condition tree is not yet proved (the three splitting lemmas it rests on are). Known findings (monitor classes 2, 3, 4): a closing brace in a string literal, "
+        "level_note": "Partial: the regular expressions (rexile) that carve a file into rules and a rule into header / when / then are not modelled - their result is observed and compared with exp_rule; Known findings (monitor classes 2, 3, 4): a closing brace in a string literal, "
                 "blank-then-blank in a when-clause string, a brace or rule header in a comment. The `$Obj.method(args)` action form is outside the generated grammar (the method-call pattern never matches; such "
                 "statements become custom actions). Trusted: Coq kernel; model of grl.rs after fixes 804c5fd ee6c06e b8f8cd8 f796657 389caa3 7515c16 fbc30e7 751cd5b 4ea3eb2 601e5f7 94337f6; hook 26bcb2e; harness; extraction. Axioms: none.",
         "trusted_base": ["rexile 0.5.8 regular expressions of grl.rs: not modelled"],
@@ -64,10 +64,11 @@ PROPS = {
         "rule": "random Horn-style rule sets built with the Rule API: 1..8 rules over 3..8 fields (booleans, integers, strings; flat and Obj.x names), conditions = And/Or trees (half of the sets conjunctive) of field == value / >= / < leaves incl. "
                 "dead ends (values nobody concludes), actions = 1..2 literal assignments; two thirds of the sets assign every field in at most one rule with its designated value (deterministic, monotone), the others contain "
                 "wrong-value conclusions and competing rules; shared sub-goals and cyclic dependencies arise freely; initial facts = a random subset of designated values (rarely a wrong value); one atomic goal per case; "
-                "max_depth in {0,1,2,3,6,10} (at most 4 / 3 for non-deterministic sets of more than 3 / 5 rules: the search is exponential in the bound on cyclic sets); strategies depth-first (3/5), breadth-first, iterative; max_solutions 1 and 3. Observed per query: provable, the caller's facts before and after. non-trivial = provable",
+                "max_depth in {0,1,2,3,6,10} (at most 4 / 3 for non-deterministic sets of more than 3 / 5 rules: the search is exponential in the bound on cyclic sets); strategies depth-first (3/5), breadth-first, iterative; max_solutions 1 and 3; plus a structured family (a third as many cases): a goal needing a conjunction of sub-goals, each with a chain of rules down to a base fact, decoy rules listed first that reach a shared "
+                "sub-goal through a longer path, max_depth = exact height needed -2..+1. Observed per query: provable, the caller's facts before and after. non-trivial = provable",
         "level_text": "Theorems (Coq, every rule set / goal / depth / facts): whenever the depth-first search with execution - at the root or at any sub-goal - reports a goal proven, the goal comparison holds in the facts "
                 "it hands back; the same for iterative deepening. The model of the search (candidate selection, recursive proof of unmet conditions, re-execution, rollback of failed candidates) predicts the verdict of "
-                "every depth-first and iterative query on deterministic rule sets and is compared with the code; the Coq-defined monitor checks on the implementation's observations, for all three strategies: provable -> "
+                "every single depth-first and iterative query (and of whole histories on deterministic rule sets) and is compared with the code; the Coq-defined monitor checks on the implementation's observations, for all three strategies: provable -> "
                 "goal true in the facts handed back AND in the many-valued forward closure of the rules on the facts asked on; (depth-first, conjunctive, monotone instances) goal at level max_depth of the bounded "
                 "forward derivation -> provable; verdict = verdict of a fresh search on the same facts.",
         "level_note": "Partial: closure-soundness and bounded completeness are monitored on every case but not yet theorems; breadth-first search depends on hash-set iteration order and is monitored only. Trusted: Coq kernel; model of "
@@ -81,7 +82,7 @@ PROPS = {
         "vo": ["Properties/C11.vo"],
         "harness_timeout": 2400,
         "rule": "histories of 2..9 operations on ONE BackwardEngine (memoisation enabled) and one caller's fact store: queries (atomic goals), assertions / changes (set a field, in non-deterministic sets also to a wrong "
-                "value) and removals of facts in between, often the same query before and after a change; rule sets, strategies and depths as in C09. Observed per query: provable, facts before and after. "
+                "value) and removals of facts in between, often the same query before and after a change, incl. paired changes (two fields swap their values or both get the same new value); rule sets, strategies and depths as in C09. Observed per query: provable, facts before and after. "
                 "non-trivial = at least one provable query",
         "level_text": "Theorem (Coq): with the memo table of BackwardEngine (keyed by the query and the canonical encoding of the facts, only failures answered from it), whatever was asked before on whatever facts, the "
                 "verdict of a query is the verdict a fresh search gives on the facts passed in, and the table stays sound (invariant by induction over the history); a fresh engine's table is sound. The engine model "
